@@ -161,6 +161,7 @@ class Spec:
         self.lemmas = []
         self.exc_parents = {}
         self.attr_sorts = {}
+        self.class_tests = {}
         self.consts = {}
         self.assumptions = []
         self.undecided = []
@@ -291,6 +292,15 @@ class Spec:
             """The attribute `name` of a caught exception object reads as fn(ctx) (e.g. a ghost holding the last errno)."""
             sp.exc_attrs[name] = fn
 
+        def class_tests(sort, names):
+            """isinstance(value of this opaque sort, <one of names>) is a deterministic predicate IsA(value, name) (spec side: is_a)."""
+            sp.class_tests.setdefault(sort.oname, set()).update(names)
+
+        def is_a(v, name):
+            from .calls import ufunc as _cu
+            v = S.lift(v)
+            return S.V(S.BOOL, _cu("isinstance_" + name, v.s, S.BOOL)(v.t))
+
         def attr_sort(name, sort):
             sp.attr_sorts[name] = sort
 
@@ -375,7 +385,7 @@ class Spec:
 
         ns = dict(cls=cls, ghost=ghost, assumed=assumed, verified=verified, target=target, loop=loop,
                   fold_sum=fold_sum, fold_all=fold_all, fold_cat=fold_cat, use_rev=use_rev, fold_unit=fold_unit, rev_hints=rev_hints, attr=attr, seq_lemma=seq_lemma, lemma=lemma,
-                  exceptions=exceptions, attr_sort=attr_sort, instance_of=instance_of, exc_attr=exc_attr, StartsWith=StartsWith, EndsWith=EndsWith, Card=Card, always_truthy=always_truthy, const=const, assume_note=assume_note,
+                  exceptions=exceptions, attr_sort=attr_sort, class_tests=class_tests, is_a=is_a, instance_of=instance_of, exc_attr=exc_attr, StartsWith=StartsWith, EndsWith=EndsWith, Card=Card, always_truthy=always_truthy, const=const, assume_note=assume_note,
                   undecided=undecided, pure=pure, ufunc=ufunc, forall=forall, exists=exists,
                   extra_check=extra_check, census=census, include=include, rx=re.compile, SPEC=sp)
         for k in ("INT BOOL STR BYTES NONE ANY Seq Tup Opt SetS MapS Opaque Enum Obj V If And Or Not Implies "
